@@ -489,6 +489,32 @@ def strip_alt(items):
     return out if changed else None
 
 
+def strip_alts(items):
+    """strip_alt applied at every non-empty subset of the places where it can apply (at most 6 places)"""
+    places = []
+    for k, it in enumerate(items):
+        if it[0] == "t" and it[1]:
+            if k > 0 and items[k - 1][0] == "w" and chr(it[1][0][0]).isspace():
+                places.append((k, 0))
+            if k + 1 < len(items) and items[k + 1][0] == "w" and chr(it[1][-1][0]).isspace():
+                places.append((k, 1))
+    places = places[:6]
+    out = []
+    for mask in range(1, 2 ** len(places)):
+        alt = [it if it[0] != "t" else ("t", list(it[1])) for it in items]
+        for b, (k, side) in enumerate(places):
+            if mask >> b & 1:
+                cs = alt[k][1]
+                if side == 0:
+                    while cs and chr(cs[0][0]).isspace():
+                        cs.pop(0)
+                else:
+                    while cs and chr(cs[-1][0]).isspace():
+                        cs.pop()
+        out.append(alt)
+    return out
+
+
 def classify_known(viols):
     """re-label a text-differs violation when the observed lines are EXACTLY what the known defect produces"""
     reqs, slots = [], []
@@ -503,8 +529,7 @@ def classify_known(viols):
                 reqs.append((408, [wire_items(alt), v["observed"]]))
                 slots.append((v, kind))
             for base_items in [items] + alts[:12]:
-                st = strip_alt(base_items)
-                if st is not None:
+                for st in strip_alts(base_items)[:63]:
                     reqs.append((408, [wire_items(st), v["observed"]]))
                     slots.append((v, "unicode-space-stripped-at-wrap"))
             continue
